@@ -359,6 +359,52 @@ Section ReaderFacts.
       red; simpl. auto.
   Qed.
 
+  (* ---- command, directory, environment and log files are expanded per process:
+     every field of the i-th process is the section's value read in the
+     dictionary of that process (process_num = its number) *)
+  Definition expanded_per_process (opts : options) (penv : exps) (k : common) (n : Z) (pe : proc * exps) : Prop :=
+    let p := fst pe in let E := snd pe in
+    lookup "process_num" E = Some (VI n) /\
+    (exists ex envs,
+        expand (k_envstr k) (upd (upd ex [("process_num", VI n); ("numprocs", VI (k_numprocs k))]) penv) = Ok envs /\
+        dict_of_key_value_pairs envs = Ok (p_environment p) /\
+        E = step_exps k penv ex n (p_environment p)) /\
+    saneget code_program [("Automatic", GAuto)] opts "command" penv E = Ok (GStr (p_command p)) /\
+    (exists d, saneget code_program [("Automatic", GAuto)] opts "directory" penv E = Ok d /\ p_directory p = gstr_opt d) /\
+    (exists o, logfile_block expand c opts penv E E "stdout" = Ok o /\
+               p_stdout p = mk_logcfg (rewrite_syslog o) (k_ocap k) (k_oev k)) /\
+    (exists e, logfile_block expand c opts penv E E "stderr" = Ok e /\
+               p_stderr p = mk_logcfg (no_stderr_file (k_redirect k) (rewrite_syslog e)) (k_ecap k) (k_eev k)) /\
+    expand (k_pname k) E = Ok (p_name p).
+
+  Lemma loop_step_fields opts sect penv k ex n p ex' :
+    env_keys_only penv ->
+    loop_step opts sect penv k ex n = Ok (p, ex') -> expanded_per_process opts penv k n (p, ex').
+  Proof.
+    intro P. unfold Config.loop_step. intro H.
+    binv H. binv H. binv H. binv H. binv H. binv H.
+    destruct v4; try discriminate. binv H. inversion H; subst; clear H.
+    unfold expanded_per_process. simpl.
+    split; [apply (step_exps_process_num k penv ex n v0 P)|].
+    split; [exists ex, v; auto|].
+    split; [assumption|].
+    split; [exists v1; auto|].
+    split; [exists v2; auto|].
+    split; [exists v3; auto|]. assumption.
+  Qed.
+
+  Lemma loop_fields opts sect penv k : env_keys_only penv ->
+    forall nums ex ps, loop opts sect penv k ex nums = Ok ps ->
+    exists pes, map fst pes = ps /\ Forall2 (expanded_per_process opts penv k) nums pes.
+  Proof.
+    intro P. induction nums as [|n r IH]; simpl; intros ex ps H.
+    - inversion H; subst. exists []. split; auto.
+    - binv H. destruct v as [p ex']. binv H. inversion H; subst; clear H.
+      apply (loop_step_fields _ _ _ _ _ _ _ _ P) in E.
+      apply IH in E0. destruct E0 as (pes & <- & F).
+      exists ((p, ex') :: pes). split; auto.
+  Qed.
+
   Lemma zrange_length s n : List.length (zrange s n) = Z.to_nat n.
   Proof. unfold zrange. rewrite map_length, seq_length. reflexivity. Qed.
 
@@ -446,6 +492,17 @@ Section ReaderFacts.
       destruct (Forall2_nth _ _ _ F _ _ N) as ([p Ex] & Hpe & (A & _ & B & _)). simpl in *.
       exists p, Ex. repeat split; auto.
       rewrite nth_error_map, Hpe. reflexivity.
+  Qed.
+
+  Theorem per_process_expansion sect opts gname klass penv ps :
+    env_keys_only penv ->
+    processes_unsorted sect opts gname klass penv = Ok ps ->
+    exists k s ex0 pes,
+      section_common sect opts gname klass penv = Ok (k, s, ex0) /\ map fst pes = ps /\
+      Forall2 (expanded_per_process opts penv k) (zrange s (k_numprocs k)) pes.
+  Proof.
+    intros P H. unfold Config.processes_unsorted in H. binv H. destruct v as [[k s] ex0].
+    exists k, s, ex0. apply (loop_fields _ _ _ _ P) in H. destruct H as (pes & <- & F). eauto.
   Qed.
 
   (* an expander is injective in process_num for this pattern when equal
